@@ -225,7 +225,7 @@ func runPureUnused(c *core.Ctx) {
 
 // iteratorDoneCalls returns, for a loop condition, the objects X such that X.Done() is called in it
 // with X an iterator from the immutable package.
-func iteratorDoneCalls(info *types.Info, cond ast.Expr) map[types.Object]*ast.CallExpr {
+func iteratorDoneCalls(info *types.Info, cond ast.Node) map[types.Object]*ast.CallExpr {
 	out := map[types.Object]*ast.CallExpr{}
 	ast.Inspect(cond, func(n ast.Node) bool {
 		call, ok := n.(*ast.CallExpr)
